@@ -106,3 +106,8 @@ PROPS["C12"] = D("for each seeded history, each file-system operation index of t
 PROPS["C13"] = D("cases are seeded event histories before and after Leave(), both rejoin-after-leave settings, every compaction threshold (compaction before and after the leave), shutdown, reopen; distinct = distinct step-list hash; non-trivial = a leave was issued",
     "Seeded exploration; after leave+shutdown the real recovery must return an empty rejoin set (rejoin disabled) or exactly the set known when Leave() was called (enabled). Exact replay.",
     quick=(4000, 45), thorough=(200000, 900))
+PROPS["C14"] = D("cases are seeded histories against a real Serf node whose snapshot lives on simfs: user events and queries delivered by gossip and push/pull, real joins (with/without ignoreOld) against a real peer holding events, fake-time advances around the 500 ms flush interval, and 1-3 restarts (crash: only bytes already handed to the OS survive; or clean shutdown) followed by old and new messages; distinct = distinct step-list hash; non-trivial = messages injected after a restart",
+    "Seeded exploration; E and Q are read by the real recovery from the image the restart starts from; any user event with time <= E or query with time <= Q on the application channel after the restart is a violation. Exact replay.",
+    quick=(2500, 60), thorough=(100000, 1200),
+    engine="D snapshot disk simulator + A replica simulator",
+    real=REAL_D + ["package serf (full node), memberlist (passive)"], simulated=SIM_D + SIM_A)
